@@ -1,5 +1,5 @@
 SPECIFICATION TSpec
-INVARIANT AtMostOneLive SenderIsNewest InOrderOnce NeverDropped WaitingIsServed AnsweredWasHandled NothingLost AllAnsweredAtEnd
+INVARIANT AtMostOneLive SenderIsNewest InOrderOnce NeverDropped WaitingIsServed AnsweredWasHandled NothingDroppedWithoutShutdown NothingLost AllAnsweredAtEnd
 POSTCONDITION Accepted
 CHECK_DEADLOCK FALSE
 CONSTANTS
